@@ -22,14 +22,19 @@ def sweep_accounting(cfg, R):
     R.rule('R12', 'sweep: every era and rule of the Python tables the compiler writes equals its source line at the granularity the scope keeps', floor=200)
     lib = cxx.load_lib(cfg)
     thorough = cfg.tier == 'thorough'
-    runs = (('extended', False), ('basic', False)) + ((('extended', True), ('basic', True)) if thorough else ())
+    ft = pipeline.feature_text()
+    runs = (('extended', False, None, 'main'), ('basic', False, None, 'main'), ('extended', False, ft, 'features'), ('basic', False, ft, 'features'))
+    if thorough:
+        runs += (('extended', True, None, 'main'), ('basic', True, None, 'main'), ('extended', True, ft, 'features'), ('basic', True, ft, 'features'))
     from . import py
     tr = py.load(cfg, pipeline.TR)
     tloc = tr.fn('Transformer.transform').loc
-    for scope, strict in runs:
-        label = '%s%s' % (scope, ',strict' if strict else '')
+    coverage = set()
+    for scope, strict, text, tag in runs:
+        label = '%s%s%s' % (scope, ',strict' if strict else '', '' if tag == 'main' else ',' + tag)
         try:
-            sw = pipeline.sweep(cfg, scope, strict)
+            sw = pipeline.sweep(cfg, scope, strict, text=text, tag=tag)
+            coverage |= sw.raw.get('coverage') or set()
         except pipeline.Raised as r_:
             for rid in ('R10', 'R11', 'R12'):          # nothing is emitted, nothing can be read back: both rules fail on this sweep
                 R.instance(rid, 'sweep[%s]:compile' % label, tloc)
@@ -62,6 +67,8 @@ def sweep_accounting(cfg, R):
             emitted = link in db['links_map']
             sym = 'kZone' + normalize_name(link)
             in_tables = sym in T.links
+            if not emitted and in_tables and any(o != link and normalize_name(o) == normalize_name(link) for o in list(db['links_map']) + list(db['zones_map'])):
+                in_tables = False           # the symbol belongs to an emitted zone or link whose name normalizes to the same identifier
             why = db['removed_links'].get(link)
             if emitted != in_tables:
                 R.violation('R10', c, tloc, '[%s] link %s is %s the compiler\'s link map but %s the generated tables' % (
@@ -143,3 +150,43 @@ def sweep_accounting(cfg, R):
                         diffs.append('%s is %s s in the source line and %s s in the table' % (what, exact, held))
                 if diffs and not noted:
                     R.violation('R11', c, e.loc, '[%s] policy %s, "%s": %s, and the policy carries no note' % (label, ln['name'], _norm(e.comment), '; '.join(diffs)))
+    reach_rule(R, tr, coverage, [r_[0] + (',strict' if r_[1] else '') + ',' + r_[3] for r_ in runs])
+
+
+FILTER_NAME = r'^(_remove_|_create_|remove_|_detect_|_mark_)'
+
+
+def reach_rule(R, tr, coverage, labels):
+    """R5, decided on the interpretation of the sweeps: which statements of tools/tzdb/transformer.py were interpreted while the
+    compiler ran on the sweep and the feature sources in both scopes.  A filter method none of whose statements was reached is a
+    filter transform() does not apply (whatever the way it would be called - directly, through a table of bound methods, a loop);
+    a place that records a reason and was not reached is listed, not reported: rule R10 says nothing about that reason."""
+    import ast
+    import re
+    from .rules_C03 import R5_EXCEPTIONS
+    R.rule('R5', 'every Transformer filter is reached when transform() is interpreted on the sweep and feature sources (both scopes); the '
+                 'places that record a reason and are reached are counted', floor=40)
+    lines = {l for m, l in coverage if m == tr.rel}
+    tloc = tr.fn('Transformer.transform').loc
+    reached = missed = 0
+    for q, f in sorted(tr.funcs.items(), key=lambda kv: kv[1].node.lineno):
+        if f.cls != 'Transformer' or not re.match(FILTER_NAME, f.short):
+            continue
+        c = 'tzdb.transformer.Transformer.transform->%s' % f.short
+        R.instance('R5', c, f.loc)
+        if not any(getattr(n, 'lineno', None) in lines for s in f.node.body for n in ast.walk(s) if isinstance(n, ast.stmt)):
+            if f.short in R5_EXCEPTIONS:
+                R.exception('R5', c, R5_EXCEPTIONS[f.short])
+            else:
+                R.violation('R5', c, f.loc, 'filter %s is defined but no statement of it is reached when transform() is interpreted on %s' % (f.short, ', '.join(labels)))
+            continue
+        for n in ast.walk(f.node):
+            if isinstance(n, ast.Expr) and isinstance(n.value, ast.Call) and n.value.args and isinstance(n.value.func, ast.Name) \
+                    and any(isinstance(a, (ast.Constant, ast.JoinedStr, ast.BinOp)) for a in n.value.args[2:3]):
+                if n.lineno in lines:
+                    reached += 1
+                    R.instance('R5', '%s:reason@%s' % (f.short, _norm(ast.unparse(n.value.args[2]))[:60]), tr.loc(n))
+                else:
+                    missed += 1
+                    R.note('not reached by any sweep line (R10 does not cover it): %s in %s: %s' % (tr.loc(n), f.short, _norm(ast.unparse(n.value))[:120]))
+    R.note('reasons: %d places reached, %d not reached' % (reached, missed))
